@@ -2,6 +2,7 @@ pub mod common;
 pub mod c01;
 pub mod c02;
 pub mod c03;
+pub mod c04;
 pub mod c05;
 pub mod c06;
 pub mod c07;
@@ -11,7 +12,10 @@ pub mod c10;
 pub mod c11;
 pub mod c12;
 pub mod c13;
+pub mod c14;
+pub mod c15;
 pub mod c16;
+pub mod c17;
 pub mod c18;
 pub mod c19;
 pub mod rs;
@@ -41,6 +45,7 @@ props! {
     "C01" => c01,
     "C02" => c02,
     "C03" => c03,
+    "C04" => c04,
     "C05" => c05,
     "C06" => c06,
     "C07" => c07,
@@ -50,7 +55,10 @@ props! {
     "C11" => c11,
     "C12" => c12,
     "C13" => c13,
+    "C14" => c14,
+    "C15" => c15,
     "C16" => c16,
+    "C17" => c17,
     "C18" => c18,
     "C19" => c19,
 }
